@@ -28,6 +28,8 @@ func c17(c *Ctx) {
 		entries = append(entries, fn, ma)
 	}
 	boundsFor(c, "C17", entries)
+	nb := c17Bits(c)
+	r.Floor("BITS table rows checked", nb, 40)
 	r.Floor("decoded fields checked by RESET.R1", nf, 8)
 	_ = core.FuncName
 }
